@@ -63,28 +63,25 @@ package storage
 //@ func (*TxRepository).Add
 //@   opt partial = 1
 //@   serves C07 C03
-//@   requires height == -1 && InvU(repo) && !held(repo.unconfirmedLock)
-//@   ensures gate: result0 == !old(has(repo.unconfirmed, txid)) && result2 == nil && has(repo.unconfirmed, txid)
-//@   ensures existing: old(has(repo.unconfirmed, txid)) ==> repo.unconfirmed[txid] == old(repo.unconfirmed[txid])
-//@        && repo.unconfirmed[txid].trusted == (old(repo.unconfirmed[txid].trusted) || trusted)
-//@        && repo.unconfirmed[txid].safe == (old(repo.unconfirmed[txid].safe) || safe)
-//@        && result1 == (safe && !old(repo.unconfirmed[txid].safe))
-//@        && same(repo.unconfirmed[txid].unsafe, repo.unconfirmed[txid].time)
-//@   ensures created: !old(has(repo.unconfirmed, txid)) ==> fresh(repo.unconfirmed[txid]) && repo.unconfirmed[txid].safe == safe
-//@        && !repo.unconfirmed[txid].unsafe && repo.unconfirmed[txid].trusted == trusted && result1 == safe
-//@   ensures others: same(repo.unconfirmed) && uSameExcept(repo, txid) && cellsSameExcept(repo.unconfirmed[txid])
-//@   ensures never_clears_unsafe: forall(x *unconfirmedTx, !fresh(x) && old(x.unsafe) ==> x.unsafe)
-//@   ensures inv: InvU(repo) && !held(repo.unconfirmedLock)
-//@   loop 0 invariant true
+//@   requires InvU(repo) && (height == -1 ==> !held(repo.unconfirmedLock)) && !held(repo.blockLock)
+//@   ensures gate: height == -1 ==> (result0 == !old(has(repo.unconfirmed, txid)) && result2 == nil && has(repo.unconfirmed, txid))
+//@   ensures existing: height == -1 ==> (old(has(repo.unconfirmed, txid)) ==> repo.unconfirmed[txid] == old(repo.unconfirmed[txid]) && repo.unconfirmed[txid].trusted == (old(repo.unconfirmed[txid].trusted) || trusted) && repo.unconfirmed[txid].safe == (old(repo.unconfirmed[txid].safe) || safe) && result1 == (safe && !old(repo.unconfirmed[txid].safe)) && same(repo.unconfirmed[txid].unsafe, repo.unconfirmed[txid].time))
+//@   ensures created: height == -1 ==> (!old(has(repo.unconfirmed, txid)) ==> fresh(repo.unconfirmed[txid]) && repo.unconfirmed[txid].safe == safe && !repo.unconfirmed[txid].unsafe && repo.unconfirmed[txid].trusted == trusted && result1 == safe)
+//@   ensures others: height == -1 ==> (same(repo.unconfirmed) && uSameExcept(repo, txid) && cellsSameExcept(repo.unconfirmed[txid]))
+//@   ensures never_clears_unsafe: height == -1 ==> (forall(x *unconfirmedTx, !fresh(x) && old(x.unsafe) ==> x.unsafe))
+//@   ensures inv: InvU(repo) && held(repo.unconfirmedLock) == old(held(repo.unconfirmedLock)) && !held(repo.blockLock)
+//@   ensures block_branch: height != -1 ==> same(repo.unconfirmed) && uSame(repo) && forall(x *unconfirmedTx, cellSame(x))
+//@   loop 0 invariant same(repo.unconfirmed) && uSame(repo) && forall(x *unconfirmedTx, cellSame(x)) && held(repo.unconfirmedLock) == old(held(repo.unconfirmedLock))
 
 //@ func (*TxRepository).Remove
 //@   opt partial = 1
 //@   serves C03 C07
-//@   requires height == -1 && InvU(repo) && !held(repo.unconfirmedLock)
-//@   ensures gone: !has(repo.unconfirmed, txid) && result0 == old(has(repo.unconfirmed, txid)) && result1 == nil
-//@   ensures others: same(repo.unconfirmed) && uSameExcept(repo, txid) && forall(x *unconfirmedTx, !fresh(x) ==> cellSame(x))
-//@   ensures inv: InvU(repo) && !held(repo.unconfirmedLock)
-//@   loop 0 invariant true
+//@   requires InvU(repo) && (height == -1 ==> !held(repo.unconfirmedLock)) && !held(repo.blockLock)
+//@   ensures gone: height == -1 ==> (!has(repo.unconfirmed, txid) && result0 == old(has(repo.unconfirmed, txid)) && result1 == nil)
+//@   ensures others: height == -1 ==> (same(repo.unconfirmed) && uSameExcept(repo, txid) && forall(x *unconfirmedTx, !fresh(x) ==> cellSame(x)))
+//@   ensures inv: InvU(repo) && held(repo.unconfirmedLock) == old(held(repo.unconfirmedLock)) && !held(repo.blockLock)
+//@   ensures block_branch: height != -1 ==> same(repo.unconfirmed) && uSame(repo) && forall(x *unconfirmedTx, cellSame(x))
+//@   loop 0 invariant same(repo.unconfirmed) && uSame(repo) && forall(x *unconfirmedTx, cellSame(x)) && held(repo.unconfirmedLock) == old(held(repo.unconfirmedLock))
 
 //@ func (*TxRepository).Contains
 //@   opt partial = 1
@@ -125,7 +122,7 @@ package storage
 //@   serves C11
 //@   opt nomonitor = 1
 //@   opt track = save
-//@   requires repo != nil && flagBytesOK()
+//@   requires repo != nil
 //@   ensures persists: [C11] ncalls(save) == 1
 //@   ensures frame: same(repo.unconfirmed) && uSame(repo) && forall(x *unconfirmedTx, cellSame(x))
 //@   ensures removed_when_empty: [C11] result == nil && len(repo.unconfirmed) == 0 ==> !sthas(unconfirmedPath)
@@ -137,7 +134,8 @@ package storage
 //@ func (*TxRepository).save
 //@   serves C11
 //@   opt nomonitor = 1
-//@   requires repo != nil && flagBytesOK()
+//@   requires repo != nil
+//@   given flagBytesOK()
 //@   loop 0 invariant ntok(writer) == 1 + 5 * nvisited() && rpos(writer) == 0 && nvisited() >= 0 && writer != nil && flagBytesOK()
 //@   loop 0 invariant tokkind(writer, 0) == fixedkind(uint8) && tokval(writer, 0) == 0
 //@   loop 0 invariant streamOK(writer, ntok(writer))
@@ -153,7 +151,7 @@ package storage
 //@ func (*TxRepository).FinalizeUnconfirmed
 //@   serves C03 C07 C11
 //@   opt returns_locked = 1
-//@   requires InvU(repo) && held(repo.unconfirmedLock) && flagBytesOK()
+//@   requires InvU(repo) && held(repo.unconfirmedLock)
 //@   ensures released: !held(repo.unconfirmedLock)
 //@   ensures {nf} only_listed: forall(t bitcoin.Hash32, has(repo.unconfirmed, t) ==> exists(c, 0, len(unconfirmed), unconfirmed[c] == t))
 //@   ensures {rep} all_listed: forall(c, 0, len(unconfirmed), has(repo.unconfirmed, unconfirmed[c]))
@@ -212,7 +210,8 @@ package storage
 //@   opt nomonitor = 1
 
 // The two package-level flag encodings hold one byte each, zero for false and non-zero for true
-// (their initial values; nothing in the package assigns them).
+// (their initial values; nothing in the package assigns them) — assumed on entry of the functions
+// that encode flags (`given`), not demanded of their callers.
 //@ spec flagBytesOK() = len(FalseData) == 1 && len(TrueData) == 1 && FalseData[0] == 0 && TrueData[0] != 0
 
 // One record of the unconfirmed file: txid bytes, first-seen time in milliseconds, three flag bytes.
@@ -243,7 +242,8 @@ package storage
 //@   opt writes_succeed = 1
 //@   opt partial = 1
 //@   opt nomonitor = 1
-//@   requires tx != nil && txid != nil && flagBytesOK()
+//@   requires tx != nil && txid != nil
+//@   given flagBytesOK()
 //@   ensures ok: [C11] result3 == nil
 //@   ensures same_id: [C11] result0 == *txid
 //@   ensures same_flags: [C11] result1 != nil && result1.safe == tx.safe && result1.unsafe == tx.unsafe && result1.trusted == tx.trusted
